@@ -73,7 +73,7 @@ def run(prop: str, tier: str, seed: int) -> int:
         if e[0] == "BuildFailed" and "build" in wanted:
             rep.violation("build", {"T": e[2], "actual": e[3], "channel": "V"})
         elif e[0] != "BuildFailed":
-            rep.nontrivial(jkey(e[2:4])[:400])
+            rep.nontrivial(__import__("hashlib").sha1(jkey(e[2:4]).encode()).hexdigest())
     excluded = 0
     for eid, (clauses, exp) in bad.items():
         e = byid[eid]
